@@ -5,7 +5,7 @@ from __future__ import annotations
 import ast
 from typing import Dict, List, Optional, Set, Tuple
 
-from ..core import AnalysisError, Ctx, assigned_names, dotted, names_in, norm, stmts_local, walk_local
+from ..core import AnalysisError, Ctx, Locals, assigned_names, dotted, names_in, norm, presence_test, stmts_local, walk_local
 from ..fold import LAST, NONE, PAIRS, RESV, CITV, Prov, resolver_call_roles
 from ..foldrules import FoldRules, isinstance_test
 from ..paths import cond_paths, enumerate_paths, guards_of, stmt_of
@@ -120,11 +120,20 @@ class C07Rules(FoldRules):
         C = inner.value.id
         # the guard: innermost enclosing test on the taken side
         test, positive = self._enclosing_test(fn, ret, leaf)
-        if test is None:
-            return False, "no enclosing condition"
-        G = self._len_eq_1(test, positive)
+        G = self._len_eq_1(test, positive) if test is not None else None
         if G is None:
-            return False, f"guard is `{norm(test)[:60]}`, not a len(..) == 1 test"
+            # any condition that dominates the return (guard clauses, merged tests), not only the innermost enclosing `if`
+            gs, _n = guards_of(enumerate_paths(fn.body), ret)
+            for c_, o_ in gs:
+                G = self._len_eq_1(c_, o_)
+                if G is not None:
+                    test = c_
+                    break
+        if G is None:
+            return False, (f"guard is `{norm(test)[:60]}`, not a len(..) == 1 test" if test is not None else "no dominating len(..) == 1 condition")
+        # a local holding the de-duplicated collection: `unique = {r for _, r in C}` ... `len(unique) == 1`
+        if isinstance(G, ast.Name) and G.id != C:
+            G = Locals(fn).expand(G, test, depth=1)
         # (a) G is C and C was de-duplicated through set()
         if isinstance(G, ast.Name) and G.id == C:
             dedups = [
@@ -212,17 +221,25 @@ class C07Rules(FoldRules):
                         return a.args[0]
         return None
 
-    def _check_addition(self, name, fn, pv, thecit, app, arg, F, R, guards):
+    def _check_addition(self, name, fn, pv, thecit, app, arg, F, R, guards, alternatives=None):
+        """guards: conditions common to every path reaching the addition; alternatives: per path, all conditions taken before it
+        (an `A or B` guard reaches the addition on two paths, each with its own matching predicate)"""
         ctx = self.ctx
         same_tuple = norm(arg) in (R, f"({F}, {R})")
-        kinds = []
+        alts = alternatives or [guards]
+        per = []
         unknown = []
-        for (c, o) in guards:
-            k = self._classify_guard(c, o, F, thecit, fn, pv)
-            if k is None:
-                unknown.append(f"{norm(c)[:50]}={o}")
-            else:
-                kinds.append(k)
+        for gl in alts:
+            kinds = []
+            for (c, o) in gl:
+                k = self._classify_guard(c, o, F, thecit, fn, pv)
+                if k is None:
+                    unknown.append(f"{norm(c)[:50]}={o}")
+                else:
+                    kinds.append(k)
+            per.append(kinds)
+        unknown = sorted(set(unknown))
+        kinds = sorted(set().union(*[set(k) for k in per])) if per else []
         ctx.ob("R-C07-2", f"resolve.{name}/candidate:same-tuple", same_tuple,
                f"the resource added must come from the same pair as the citation tested (adds {norm(arg)[:40]})", node=app, mod=self.m)
         ctx.ob("R-C07-2", f"resolve.{name}/candidate:no-extra-filter", not unknown,
@@ -230,13 +247,13 @@ class C07Rules(FoldRules):
                f"citation being resolved and the same pair; unrecognised: {unknown}", node=app, mod=self.m)
         if name == self.r.resolvers.get(self._param_for("ShortCaseCitation"), ""):
             need = {"isinstance:FullCaseCitation", "eq:corrected_reporter", "eq:volume"}
-            ctx.ob("R-C07-2", f"resolve.{name}/candidate:reporter+volume", need <= set(kinds),
-                   f"short-form candidates need isinstance(.., FullCaseCitation), equal corrected_reporter() and equal volume; found {sorted(kinds)}",
+            ctx.ob("R-C07-2", f"resolve.{name}/candidate:reporter+volume", all(need <= set(k) for k in per),
+                   f"short-form candidates need isinstance(.., FullCaseCitation), equal corrected_reporter() and equal volume; found {kinds}",
                    node=app, mod=self.m)
         else:
-            ok = any(k.startswith("contains:") or k == "intersects" for k in kinds)
+            ok = all(any(k.startswith("contains:") or k == "intersects" for k in ks) for ks in per)
             ctx.ob("R-C07-2", f"resolve.{name}/candidate:name-match", ok,
-                   f"name-based candidates need a containment / intersection test against the same pair's party names; found {sorted(kinds)}",
+                   f"name-based candidates need a containment / intersection test against the same pair's party names; found {kinds}",
                    node=app, mod=self.m)
 
     # ---- R-C07-2 --------------------------------------------------------------
@@ -266,13 +283,20 @@ class C07Rules(FoldRules):
                     st = stmt_of(app)
                     guards, npaths = guards_of(paths, st)
                     n_app += 1
-                    self._check_addition(name, fn, pv, thecit, app, app.args[0], F, R, guards)
+                    alts = []
+                    for p_ in paths:
+                        idx_ = next((i_ for i_, e_ in enumerate(p_.events) if e_[0] == "stmt" and (e_[1] is st or getattr(e_[1], "_orig", None) is st)), None)
+                        if idx_ is not None:
+                            alts.append([(e_[1], e_[2]) for e_ in p_.events[:idx_] if e_[0] == "cond"])
+                    self._check_addition(name, fn, pv, thecit, app, app.args[0], F, R, guards, alts)
                 # completeness: no `continue`/`break` other than on a failed isinstance
                 for p in paths:
                     if p.exit in ("continue", "break", "return"):
                         conds = [(norm(ev[1]), ev[2]) for ev in p.events if ev[0] == "cond"]
-                        ok = p.exit == "continue" and len(conds) >= 1 and all(
-                            isinstance_test(ev[1]) is not None for ev in p.events if ev[0] == "cond") and not conds[-1][1]
+                        cev = [ev for ev in p.events if ev[0] == "cond"]
+                        ok = p.exit == "continue" and len(conds) >= 1 and not conds[-1][1] and all(
+                            isinstance_test(ev[1]) is not None or self._classify_guard(ev[1], True, F, thecit, fn, pv) is not None for ev in cev) \
+                            and all(ev[2] for ev in cev[:-1])
                         ctx.ob("R-C07-2", f"resolve.{name}/scan-exit", ok,
                                f"the candidate scan may skip a pair only because it is not a FullCaseCitation; path conditions {conds[:4]} -> {p.exit}",
                                node=p.exit_node, mod=self.m)
@@ -302,7 +326,7 @@ class C07Rules(FoldRules):
                 n_app += 1
                 self._check_addition(name, fn, pv, thecit, comp, comp.elt, F, R, guards)
         ctx.extra["candidate_additions"] = n_app
-        ctx.need(n_app >= 4, f"expected >=4 candidate additions, found {n_app}")
+        ctx.need(n_app >= 3, f"expected >=3 candidate additions (one per name/reporter scan), found {n_app}")
 
     def _param_for(self, cls: str) -> str:
         """resolver parameter called under isinstance(CIT, cls) in the fold."""
@@ -317,6 +341,25 @@ class C07Rules(FoldRules):
         return ""
 
     def _classify_guard(self, c: ast.AST, outcome: bool, F: str, thecit: List[str], fn, pv) -> Optional[str]:
+        if isinstance(c, ast.Name):
+            # a named boolean local: `same_volume = a.groups.get("volume") == b.groups.get("volume")`
+            e = Locals(fn).expand(c, c, depth=1)
+            if not isinstance(e, ast.Name):
+                c = e
+        if isinstance(c, ast.Call) and dotted(c.func) == "any" and len(c.args) == 1 and isinstance(c.args[0], ast.GeneratorExp) and outcome:
+            # any(getattr(F.metadata, p) and X in getattr(F.metadata, p) for p in ("defendant", "plaintiff"))
+            g = c.args[0]
+            if len(g.generators) == 1 and isinstance(g.generators[0].target, ast.Name) and isinstance(g.generators[0].iter, (ast.Tuple, ast.List)) \
+                    and all(isinstance(x, ast.Constant) and isinstance(x.value, str) for x in g.generators[0].iter.elts) and not g.generators[0].ifs:
+                v = g.generators[0].target.id
+                atoms = g.elt.values if isinstance(g.elt, ast.BoolOp) and isinstance(g.elt.op, ast.And) else [g.elt]
+                fld = f"getattr({F}.metadata, {v})"
+                has_in = any(isinstance(a_, ast.Compare) and len(a_.ops) == 1 and isinstance(a_.ops[0], ast.In) and norm(a_.comparators[0]) == fld
+                             and F not in names_in(a_.left) for a_ in atoms)
+                others = all(norm(a_) == fld or (isinstance(a_, ast.Compare) and norm(a_.comparators[0]) == fld) for a_ in atoms)
+                if has_in and others:
+                    return "contains:" + "|".join(x.value for x in g.generators[0].iter.elts)
+            return None
         it = isinstance_test(c)
         if it and it[0] == F and outcome:
             return "isinstance:" + "|".join(it[1])
@@ -479,12 +522,15 @@ class C07Rules(FoldRules):
         paths = enumerate_paths(fn.body)
         # locals
         PAGE = PIN = MATCH = None
+        LOCS = Locals(fn)
+        self._locs = LOCS
         for s in stmts_local(fn.body):
             if isinstance(s, ast.Assign) and len(s.targets) == 1 and isinstance(s.targets[0], ast.Name):
                 v = s.value
                 if isinstance(v, ast.Call) and dotted(v.func) == "int" and v.args:
                     t = norm(v.args[0])
-                    if t.startswith(FULL + ".groups") and "page" in t:
+                    te = LOCS.text(v.args[0], s)
+                    if te.startswith(FULL + ".groups") and "page" in te:
                         PAGE = s.targets[0].id
                     elif MATCH and (t.startswith(MATCH + "[") or t.startswith(MATCH + ".group(")):
                         PIN = s.targets[0].id
@@ -514,8 +560,10 @@ class C07Rules(FoldRules):
                     tags.add("nonnumeric")
                 if t in (f"{MATCH} is None",) and o:
                     tags.add("nonnumeric")
-                b = self._bound_kind(c, PIN, PAGE)
-                if b and o:
+                if t in (f"{MATCH} is not None",) and not o:
+                    tags.add("nonnumeric")
+                b = self._bound_kind(c, PIN, PAGE, o)
+                if b:
                     tags.add(b)
             for t in tags:
                 saw[t] += 1
@@ -535,19 +583,27 @@ class C07Rules(FoldRules):
                    node=fn, mod=self.m)
         ctx.ob("R-C07-4c", f"{q}/reject-paths-return-true", allok, "all rejecting paths return True", node=fn, mod=self.m, nontrivial=False)
 
-    def _bound_kind(self, c: ast.AST, PIN: str, PAGE: str) -> Optional[str]:
+    def _bound_kind(self, c: ast.AST, PIN: str, PAGE: str, outcome: bool = True) -> Optional[str]:
+        """'lower' if (c, outcome) says pin < page, 'upper' if it says pin > page + K (K a positive constant)"""
         if not (isinstance(c, ast.Compare) and len(c.ops) == 1):
             return None
-        l, r, op = c.left, c.comparators[0], c.ops[0]
+        l, r, op = c.left, c.comparators[0], type(c.ops[0])
+        if op not in (ast.Lt, ast.Gt, ast.LtE, ast.GtE):
+            return None
         # normalise to PIN on the left
         if isinstance(r, ast.Name) and r.id == PIN:
             l, r = r, l
-            op = {ast.Lt: ast.Gt, ast.Gt: ast.Lt, ast.LtE: ast.GtE, ast.GtE: ast.LtE}.get(type(op), type(op))()
+            op = {ast.Lt: ast.Gt, ast.Gt: ast.Lt, ast.LtE: ast.GtE, ast.GtE: ast.LtE}[op]
         if not (isinstance(l, ast.Name) and l.id == PIN):
             return None
-        if isinstance(op, (ast.Lt, ast.LtE)) and isinstance(r, ast.Name) and r.id == PAGE:
+        if not outcome:
+            op = {ast.Lt: ast.GtE, ast.GtE: ast.Lt, ast.Gt: ast.LtE, ast.LtE: ast.Gt}[op]
+        locs = getattr(self, "_locs", None)
+        if isinstance(r, ast.Name) and r.id != PAGE and locs is not None:
+            r = locs.expand(r, c, stop={PAGE, PIN})
+        if op in (ast.Lt, ast.LtE) and isinstance(r, ast.Name) and r.id == PAGE:
             return "lower"
-        if isinstance(op, (ast.Gt, ast.GtE)) and isinstance(r, ast.BinOp) and isinstance(r.op, ast.Add):
+        if op in (ast.Gt, ast.GtE) and isinstance(r, ast.BinOp) and isinstance(r.op, ast.Add):
             a, b = r.left, r.right
             for x, y in ((a, b), (b, a)):
                 if isinstance(x, ast.Name) and x.id == PAGE:
